@@ -395,6 +395,22 @@ func c11Run(c *core.Ctx) *core.Result {
 			}
 		case listed[pfx+e.Path] && !bytes.Equal(data, e.Data):
 			r.ViolateD("open-wrong-bytes", det, "%q opened through the view yields %d bytes, the file has %d", e.Path, len(data), len(e.Data))
+		case !listed[pfx+e.Path] && err != nil && !mapDropped[e.Path] && !(k1 && naiveSet[pfx+e.Path]) && pfx == "":
+			// hidden and refused under its clean name: other spellings of the
+			// same path must be refused as well
+			parent := tree.Parent(e.Path)
+			for _, alt := range []string{"./" + e.Path, "/" + e.Path, "x/../" + e.Path, joinRel(parent, "./"+tree.Base(e.Path)), e.Path + "/."} {
+				rc, err := view.Open(alt)
+				r.Count("unclean_opens_of_hidden_files", 1)
+				if err == nil {
+					data, _ := io.ReadAll(rc)
+					rc.Close()
+					if bytes.Equal(data, e.Data) {
+						r.ViolateD("open-serves-hidden-unclean", det, "%q is hidden by the filter and refused under that name, but Open(%q) serves its bytes", e.Path, alt)
+						break
+					}
+				}
+			}
 		case !listed[pfx+e.Path] && err == nil:
 			if mapDropped[e.Path] {
 				// dropped by a map function, not by include/exclude patterns:
